@@ -4,7 +4,7 @@ import re
 
 FALLBACK_NAMES = ["ansi", "bigquery", "clickhouse", "duckdb", "generic", "glaredb", "mssql", "mysql", "postgres", "redshift", "sqlite", "snowflake"]
 
-SQLITE_VIOLATION = re.compile(r"no such column|no such table|syntax error|ambiguous column|same number of result columns|circular reference|incomplete input|requires one ORDER BY expression|frame starting offset|frame ending offset|unsupported frame specification")
+SQLITE_VIOLATION = re.compile(r"no such column|no such table|syntax error|ambiguous column|same number of result columns|circular reference|incomplete input|requires one ORDER BY expression|unrecognized token|frame starting offset|frame ending offset|unsupported frame specification")
 
 
 def code_of(sql):
@@ -124,6 +124,19 @@ def classify(case):
             return "F27-offset-without-limit"
     if d == "mssql" and kind == "dialect" and cons == [3, 0, 0] and OPEN_TAKE.search(src) and "OFFSET" in code:
         return "C07-N7-mssql-offset-without-order-by"
+    # N17: LIMIT n with n >= 2^32 is printed with the suffix L
+    if re.search(r"\bLIMIT \d{10,}L\b", code) and re.search(r"take[^\n]*\d{10,}", src):
+        if kind == "tokens" or (kind == "sqlite" and "unrecognized token" in msg) or kind == "parse":
+            return "C07-N17-limit-long-suffix"
+    # N18: a window partitioned by `this` over a relation without declared columns: PARTITION BY *
+    if re.search(r"PARTITION BY (\w+\.)?\*", code) and re.search(r"\bgroup\s+(this|\w+\.\*|\{[^}]*\*[^}]*\})", src):
+        if kind in ("parse", "sqlite") or (kind == "scopex") or (kind == "scope" and diag[0] == 5):
+            return "C07-N18-partition-by-star"
+    # N19 (relational F38): ORDER BY of a CTE names a generated alias of its own select list qualified with a table: `ORDER BY t._expr_0`
+    m19 = re.search(r"ORDER BY [^()]*?\b(\w+)\.(_expr_\d+)\b", code)
+    if m19 and "sort" in src and re.search(r" AS %s\b" % re.escape(m19.group(2)), code):
+        if (kind == "scope" and diag[0] == 4 and diag[1] == 5 and (names[2] or "") == m19.group(2)) or (kind == "sqlite" and ("no such column: %s.%s" % m19.groups()) in msg):
+            return "C07-N19-order-by-qualified-generated-alias"
     # ---- second layer of the scope checker (kind scopex: ambiguity 21/22, window frame 23, grouping 24/25)
     # N14: `window range:a..b` with an offset bound and not exactly one sort key
     if "range:" in src and "RANGE" in code:
@@ -180,10 +193,10 @@ def classify(case):
             return "F24-dangling-expr-behind-star"
     # N1: ORDER BY names a relation that exists only inside a CTE / sub-query
     if "sort" in src and " ORDER BY " in code:
-        if kind == "scope" and diag[0] == 4 and diag[1] == 5:
+        if kind == "scope" and diag[0] == 4 and diag[1] == 5 and not re.fullmatch(r"_expr_\d+", names[2] or ""):
             return "C07-N1-order-by-inner-relation"
         m = re.search(r"no such column: ([A-Za-z_0-9]+\.[A-Za-z_0-9]+)", msg)
-        if kind == "sqlite" and m and re.search(r"ORDER BY [^()]*\b%s\b" % re.escape(m.group(1)), code):
+        if kind == "sqlite" and m and not re.search(r"\._expr_\d+$", m.group(1)) and re.search(r"ORDER BY [^()]*\b%s\b" % re.escape(m.group(1)), code):
             return "C07-N1-order-by-inner-relation"
     # N2: loop whose step is split: recursive reference inside a derived table
     if "loop" in src and "WITH RECURSIVE" in code and ((kind == "sqlite" and "circular reference" in msg) or (kind == "scope" and diag[0] == 2)):
